@@ -92,6 +92,17 @@ func cmdDump(args []string) int {
 			continue
 		}
 		g.run()
+		{
+			var ms []string
+			for k := range g.inferMods(f, map[*ssa.Function]bool{}) {
+				ms = append(ms, k)
+			}
+			sort.Strings(ms)
+			fmt.Println("INFERRED-MODS:", strings.Join(ms, " "))
+			for w := range prog.modWhy {
+				fmt.Println("  unknown effects because of:", w)
+			}
+		}
 		for i, h := range g.loopOrd {
 			fmt.Printf("loop %d: header block %d (%s)\n", i, h.Index, h.Comment)
 		}
